@@ -1,5 +1,6 @@
 import LyModel.Props.C06
 import LyModel.Props.C06UO
+import LyModel.Props.C06UOList
 #print axioms LyModel.Props.C06.userord_apply_diff
 #print axioms LyModel.Props.C06.diff_self_empty
 #print axioms LyModel.Props.C06.apply_diff_partial
@@ -10,3 +11,7 @@ import LyModel.Props.C06UO
 #print axioms LyModel.Props.C06UO.apply_userord_flat_ll_sim
 #print axioms LyModel.Props.C06UO.apply_diff_userord_flat_ll
 #print axioms LyModel.Props.C06UO.apply_diff_userord_flat_ll_dec
+#print axioms LyModel.Props.C06UO.diff_userord_flat_kl_sim
+#print axioms LyModel.Props.C06UO.apply_userord_flat_kl_sim
+#print axioms LyModel.Props.C06UO.apply_diff_userord_flat_kl
+#print axioms LyModel.Props.C06UO.apply_diff_userord_flat_kl_dec
